@@ -212,7 +212,9 @@ func genXport(r *rng, seed uint64, focus, arm string) *plan.Plan {
 		if r.p(0.2) {
 			t.Ans.PadTo = []int{600, 1500, 5000, 20000}[r.intn(4)]
 			if kind == "udp" && t.Ans.PadTo > 3500 {
-				t.Ans.PadTo = 1500
+				// (a datagram of up to 4096 octets is taken as it comes,
+				// whatever size the query advertised)
+				t.Ans.PadTo = []int{1500, 2100, 2600, 3300, 3900}[r.intn(5)]
 			}
 		}
 		delay := r.i64(50, []int64{2000, 50_000, 1_000_000, 7_000_000}[r.intn(4)])
